@@ -1,5 +1,6 @@
 import OapiVerif.Proofs.Codec
 import OapiVerif.Proofs.QueryParam
+import OapiVerif.Proofs.DeepObject
 /-!
 C04 — Parameters survive the generated client → generated server round trip.
 
@@ -391,5 +392,21 @@ theorem C04_query_object_exploded_roundtrip (required : Bool) (name : Str) (kvs 
   Security.query_object_exploded_roundtrip required name kvs hne hk hnd hb
 
 example : Security.NameOk [118] := by intro b hb; simp at hb; subst hb; decide
+
+/-! ### deepObject (flat object of strings) -/
+
+/-- A deepObject query parameter whose member names and values need no escaping arrives as the members
+supplied (the pinned runtime escapes neither names nor values, hence the restriction). -/
+theorem C04_deepobject_roundtrip (name : Str) (kvs : List (Str × Str)) (hne : kvs ≠ []) (hn : Security.NameOk name)
+    (hsorted : DeepObject.sortByKey kvs = kvs) (hnd : (kvs.map (·.1)).Nodup)
+    (hk : ∀ kv ∈ kvs, Security.NameOk kv.1) (hv : ∀ kv ∈ kvs, Security.NameOk kv.2) :
+    ∃ q, parseQuery (DeepObject.frag name kvs) = .ok q ∧ DeepObject.bind name q = .ok kvs :=
+  DeepObject.deepobject_roundtrip name kvs hne hn hsorted hnd hk hv
+
+/-- Outside that restriction the value is cut: `v[a]=x&y` is read as member a = "x" plus a stray key "y"
+(pinned runtime v1.1.0; recorded as a known finding, reproduced through the generated client). -/
+theorem C04_deepobject_amp_witness :
+    (parseQuery (DeepObject.oas [118] [([97], [120, 38, 121])])).toOption =
+      some [([118, 91, 97, 93], [[120]]), ([121], [[]])] := DeepObject.deepobject_amp_witness
 
 end OapiVerif.Codec
